@@ -1,4 +1,168 @@
-From ZV Require Import Base.Bytes Base.Res Base.Sig C08.Model C08.Spec C08.Proofs.
-Theorem C08_eq_refl_refuted : exists v, veq v v = false.
+(* Properties/C08.v — dynamic values obey equality, ordering, hashing and conversion laws.
+   Only statements, each closed by [exact] of a lemma of C08/*.v, and their assumptions.
+   veq / vpcmp / vcmp / vhash / value_signature / try_clone / try_to_owned / into_value / from_value are the model of
+   zvariant's Value (C08/Model.v); icmp, clash, has_nan, has_fd, wfb, has_type, wt, tuple_variant, T4, Known_C08 are
+   specification-side definitions (C08/Spec.v). *)
+From ZV Require Import Base.Bytes Base.Res Base.Sig C08.Model C08.Spec C08.Algebra C08.SigFacts C08.ValueFacts C08.Order
+     C08.Clone C08.Conv C08.Proofs.
+
+(* ================= laws that hold for ALL values ================= *)
+
+(* equal values feed the Hasher the same sequence of writes (hence hash equally under any Hasher), +0.0 / -0.0 included *)
+Theorem C08_hash : forall a b : value, veq a b = true -> vhash a = vhash b.
+Proof. exact veq_hash. Qed.
+Print Assumptions C08_hash.
+
+Theorem C08_eq_sym : forall a b : value, veq a b = veq b a.
+Proof. exact veq_sym. Qed.
+Print Assumptions C08_eq_sym.
+
+Theorem C08_eq_trans : forall a b c : value, veq a b = true -> veq b c = true -> veq a c = true.
+Proof. exact veq_trans. Qed.
+Print Assumptions C08_eq_trans.
+
+Theorem C08_eq_signature : forall a b : value, veq a b = true -> value_signature a = value_signature b.
+Proof. exact veq_sig. Qed.
+Print Assumptions C08_eq_signature.
+
+(* cmp is antisymmetric: a.cmp(b) is the reverse of b.cmp(a); same for partial_cmp *)
+Theorem C08_cmp_antisym : forall a b : value, vcmp b a = CompOpp (vcmp a b).
+Proof. exact vcmp_dual. Qed.
+Print Assumptions C08_cmp_antisym.
+
+Theorem C08_pcmp_antisym : forall a b : value, vpcmp b a = option_map CompOpp (vpcmp a b).
+Proof. exact vpcmp_dual. Qed.
+Print Assumptions C08_pcmp_antisym.
+
+(* one half of "consistent with equality" holds everywhere: equal values compare Equal *)
+Theorem C08_eq_cmp : forall a b : value, veq a b = true -> vpcmp a b = Some Eq /\ vcmp a b = Eq.
+Proof. intros a b H. split; [exact (veq_vpcmp a b H) | exact (veq_vcmp a b H)]. Qed.
+Print Assumptions C08_eq_cmp.
+
+(* try_clone / try_to_owned never change the signature; without file descriptors the copy is the value itself,
+   for every behaviour [os] of dup(2) and every number k of dups made before *)
+Theorem C08_clone : forall (os : nat -> option Z) (v : value) (k : nat),
+  (forall r k', try_clone os v k = Ok (r, k') -> value_signature r = value_signature v) /\
+  (has_fd v = false -> try_clone os v k = Ok (v, k)).
+Proof. intros os v k. split; [intros r k'; exact (try_clone_sig os v k r k') | exact (try_clone_fdfree os v k)]. Qed.
+Print Assumptions C08_clone.
+
+Theorem C08_owned : forall (os : nat -> option Z) (v : value) (k : nat),
+  (forall r k', try_to_owned os v k = Ok (r, k') -> value_signature r = value_signature v) /\
+  (has_fd v = false -> try_to_owned os v k = Ok (v, k)).
+Proof. intros os v k. split; [intros r k'; exact (try_to_owned_sig os v k r k') | exact (try_to_owned_fdfree os v k)]. Qed.
+Print Assumptions C08_owned.
+
+(* the reported signature types the value (members of containers have the stored member signatures), for every value
+   that satisfies the checks of Array::append / Dict::append / StructureBuilder::build; and these constructors keep them *)
+Theorem C08_sig_encoded : forall v : value, wfb v = true -> has_type (value_signature v) v.
+Proof. exact wfb_has_type. Qed.
+Print Assumptions C08_sig_encoded.
+
+Theorem C08_constructors_wf :
+  (forall a e a', wfb a = true -> wfb e = true -> array_append a e = Ok a' -> wfb a' = true) /\
+  (forall d k v d', wfb d = true -> wfb k = true -> wfb v = true -> dict_append d k v = Ok d' -> wfb d' = true) /\
+  (forall l s, forallb wfb l = true -> struct_build l = Ok s -> wfb s = true).
+Proof. exact (conj array_append_wf (conj dict_append_wf struct_build_wf)). Qed.
+Print Assumptions C08_constructors_wf.
+
+(* the reference order is a total preorder on all values, and == is its equivalence on NaN-free values *)
+Theorem C08_reference_order :
+  (forall a b c : value, T4 (icmp a b) (icmp b c) (icmp a c)) /\
+  (forall a b : value, icmp b a = CompOpp (icmp a b)) /\
+  (forall a b : value, has_nan a = false -> has_nan b = false -> (icmp a b = Eq <-> veq a b = true)).
+Proof. exact (conj icmp_T4 (conj icmp_dual icmp_Eq)). Qed.
+Print Assumptions C08_reference_order.
+
+(* ================= the full statement is refuted on this tree ================= *)
+
+Theorem C08_eq_refl_refuted : exists v : value, veq v v = false.
 Proof. exact eq_refl_refuted. Qed.
 Print Assumptions C08_eq_refl_refuted.
+
+Theorem C08_ord_consistent_refuted :
+  (exists a b, has_nan a = false /\ has_nan b = false /\ vcmp a b = Eq /\ veq a b = false) /\
+  (exists a b, wfb a = true /\ wfb b = true /\ has_nan a = false /\ has_nan b = false /\ vcmp a b = Eq /\ veq a b = false) /\
+  (exists a, vcmp a a = Eq /\ veq a a = false).
+Proof. exact ord_consistent_refuted. Qed.
+Print Assumptions C08_ord_consistent_refuted.
+
+Theorem C08_ord_trans_refuted :
+  (exists a b c, vcmp a b = Eq /\ vcmp b c = Eq /\ vcmp a c = Lt /\ has_nan a = false /\ has_nan b = false /\ has_nan c = false) /\
+  (exists a b c, vcmp a b = Eq /\ vcmp b c = Eq /\ vcmp a c = Lt /\ any_clash [a; b; c] = false).
+Proof. exact ord_trans_refuted. Qed.
+Print Assumptions C08_ord_trans_refuted.
+
+Theorem C08_pcmp_refuted : exists a b : value, vpcmp a b = None /\ vpcmp a b <> Some (vcmp a b).
+Proof. exact pcmp_refuted. Qed.
+Print Assumptions C08_pcmp_refuted.
+
+Theorem C08_owned_fd_refuted : forall (os : nat -> option Z) (o : bool) (n m : Z), os 0%nat = Some m -> m <> n ->
+  try_to_owned os (VFd o n) 0 = Ok (VFd true m, 1%nat) /\ veq (VFd true m) (VFd o n) = false.
+Proof. exact owned_fd_refuted. Qed.
+Print Assumptions C08_owned_fd_refuted.
+
+Theorem C08_clone_nan_refuted : exists v : value, forall os k, try_clone os v k = Ok (v, k) /\ veq v v = false.
+Proof. exact clone_nan_refuted. Qed.
+Print Assumptions C08_clone_nan_refuted.
+
+Theorem C08_conv_tuple_variant_refuted :
+  (exists t x, wt t x = true /\ exists y, from_value t (into_value x) = Ok y /\ y <> x) /\
+  (exists t x, wt t x = true /\ wfb (into_value x) = false) /\
+  (exists t x, wt t x = true /\ from_value t (into_value x) = Err EIncorrectType).
+Proof. exact conv_tuple_variant_refuted. Qed.
+Print Assumptions C08_conv_tuple_variant_refuted.
+
+Theorem C08_dict_sigkey_refuted :
+  exists d1 d2, dict_append (VDict SSig SU8 []) (VSig SU8) (VU8 1) = Ok d1 /\
+                dict_append d1 (VSig SBool) (VU8 2) = Ok d2 /\ d2 = VDict SSig SU8 [(VSig SU8, VU8 2)].
+Proof. exact dict_sigkey_refuted. Qed.
+Print Assumptions C08_dict_sigkey_refuted.
+
+(* ================= ... and holds outside the known classes ================= *)
+
+Theorem C08_eq_refl_partial : forall a : value, has_nan a = false -> veq a a = true.
+Proof. exact veq_refl. Qed.
+Print Assumptions C08_eq_refl_partial.
+
+(* the hand-written Ord IS the reference order on NaN-free pairs whose comparison meets no two different signatures *)
+Theorem C08_ord_reference_partial : forall a b : value, has_nan a = false -> has_nan b = false -> clash a b = false ->
+  vpcmp a b = Some (icmp a b) /\ vcmp a b = icmp a b.
+Proof. intros a b Ha Hb Hc. split; [exact (vpcmp_agree a b Ha Hb Hc) | exact (vcmp_agree a b Ha Hb Hc)]. Qed.
+Print Assumptions C08_ord_reference_partial.
+
+Theorem C08_ord_consistent_partial : forall a b : value, has_nan a = false -> has_nan b = false -> clash a b = false ->
+  (vcmp a b = Eq <-> veq a b = true).
+Proof. exact ord_consistent_partial. Qed.
+Print Assumptions C08_ord_consistent_partial.
+
+Theorem C08_ord_trans_partial : forall a b c : value, has_nan a = false -> has_nan b = false -> has_nan c = false ->
+  clash a b = false -> clash b c = false -> clash a c = false -> T4 (vcmp a b) (vcmp b c) (vcmp a c).
+Proof. exact ord_trans_partial. Qed.
+Print Assumptions C08_ord_trans_partial.
+
+Theorem C08_pcmp_partial : forall a b : value, has_nan a = false -> has_nan b = false -> vpcmp a b = Some (vcmp a b).
+Proof. exact vpcmp_vcmp. Qed.
+Print Assumptions C08_pcmp_partial.
+
+Theorem C08_clone_eq_partial : forall os v k r k', has_nan v = false -> has_fd v = false ->
+  (try_clone os v k = Ok (r, k') \/ try_to_owned os v k = Ok (r, k')) -> veq r v = true /\ r = v.
+Proof. exact clone_eq_partial. Qed.
+Print Assumptions C08_clone_eq_partial.
+
+Theorem C08_conv_partial : forall (t : sig) (x : sv), wt t x = true -> tuple_variant x = false ->
+  from_value t (into_value x) = Ok x.
+Proof. exact conv_roundtrip. Qed.
+Print Assumptions C08_conv_partial.
+
+(* everything at once for a case of three values outside the classes
+   Known_C08 l = existsb has_nan l || any_clash l || existsb has_fd l *)
+Theorem C08_laws_partial : forall a b c : value, Known_C08 [a; b; c] = false ->
+  veq a a = true /\ veq a b = veq b a /\ (veq a b = true -> veq b c = true -> veq a c = true) /\
+  vcmp b a = CompOpp (vcmp a b) /\ T4 (vcmp a b) (vcmp b c) (vcmp a c) /\ (vcmp a b = Eq <-> veq a b = true) /\
+  vpcmp a b = Some (vcmp a b) /\
+  (veq a b = true -> vhash a = vhash b) /\
+  (forall os k, try_clone os a k = Ok (a, k) /\ try_to_owned os a k = Ok (a, k)) /\
+  (wfb a = true -> has_type (value_signature a) a).
+Proof. exact laws_partial. Qed.
+Print Assumptions C08_laws_partial.
